@@ -436,11 +436,15 @@ func GuardEdges(fn *ssa.Function, calls []ssa.CallInstruction, oc Outcome) (ok, 
 				matched = []ssa.CallInstruction{c}
 			} else if phi, isPhi := o.(*ssa.Phi); isPhi {
 				// err = f() in one branch, err = g() in the other, tested after the merge
+				// (an alternative that is the constant of the failing outcome — "dropped := false" before an optional
+				// call — only adds paths to the failing edge: the succeeding edge still means a call succeeded)
 				all := true
 				for _, e := range phi.Edges {
 					eo, ei := origin(e)
 					if c, found := want[key{eo, ei}]; found {
 						matched = append(matched, c)
+					} else if isFailingConst(e, oc) {
+						continue
 					} else {
 						all = false
 					}
@@ -830,4 +834,20 @@ func loopBody(h *ssa.BasicBlock) map[*ssa.BasicBlock]bool {
 		}
 	}
 	return body
+}
+
+// isFailingConst: v is the constant a result takes when the outcome oc did NOT happen (false for BoolTrue, true for
+// BoolFalse); error outcomes have no such constant (a nil error is the succeeding one).
+func isFailingConst(v ssa.Value, oc Outcome) bool {
+	cst, ok := v.(*ssa.Const)
+	if !ok || cst.Value == nil || cst.Value.Kind() != constant.Bool {
+		return false
+	}
+	switch oc {
+	case BoolTrue:
+		return !constant.BoolVal(cst.Value)
+	case BoolFalse:
+		return constant.BoolVal(cst.Value)
+	}
+	return false
 }
